@@ -727,12 +727,23 @@ fn totality_mode(rep: &mut Report) {
         ("tiny".into(), vec![22]),
     ];
     flights.push(("hello-then-garbage".into(), { let mut v = base.clone(); v.extend(vec![0x17u8; 18000]); v }));
+    // every flight whole and in segmentations whose first pieces are not multiples of the loop's read size
+    // (lock-step: the loop sees exactly these pieces)
+    let seg_sets: Vec<Vec<usize>> = vec![vec![], vec![1000], vec![1], vec![517], vec![1023, 1025], vec![5, 1000, 3]];
+    let mut runs: Vec<(String, Vec<u8>, Vec<usize>)> = vec![];
     for (name, fl) in flights {
+        for segs in &seg_sets {
+            if segs.iter().sum::<usize>() >= fl.len() && !segs.is_empty() { continue; }
+            runs.push((if segs.is_empty() { name.clone() } else { format!("{}:segs{:?}", name, segs) }, fl.clone(), segs.clone()));
+        }
+    }
+    for (name, fl, segs) in runs {
         rep.eval();
         let n2 = name.clone();
         watchdog::enter(move || (format!("c09:hello:loop:{}:hang", n2), "prebuffer loop did not end".into(), json!({})));
-        let obs = rt.block_on(run_peek(&fl, &[], true, false));
+        let obs = rt.block_on(run_peek(&fl, &segs, true, !segs.is_empty()));
         watchdog::leave();
+        let name = name.split(":segs").next().unwrap().to_string() + if segs.is_empty() { "" } else { ":misaligned" };
         match obs {
             Err(e) => rep.violation_with(format!("c09:hello:loop:{}:stuck", name), format!("prebuffer loop on garbage: {}", e), || json!({"flight": name, "len": fl.len()})),
             Ok(o) => {
